@@ -3,6 +3,7 @@ package asyncbufio
 // C07 — file writing is order-preserving and flush-complete under any disk timing.
 
 import (
+	"runtime"
 	"time"
 )
 
@@ -59,4 +60,36 @@ func verifC07Order() {
 	}
 	vObserve("nops", int64(nops)) // (how many writes were accepted depends on the schedule)
 	vWitness("c07order-end")
+}
+
+// verifC07Drain: the queue at the capacity the file writers use (1000), holding any number
+// occ of pending one-byte writes when Flush or Close is called with the writer goroutine
+// stalled until then: when the call returns, all occ bytes are in the file, in order.
+func verifC07Drain() {
+	runtime.GOMAXPROCS(1) // natively: keeps the writer goroutine off the CPU while the queue is filled
+	depth := vParam("depth", 1000)
+	occ := vRange("occupancy", 0, depth)
+	closeIt := vRange("close", 0, 1) == 1
+	sink := &c07Sink{}
+	aw := NewWriter(sink, depth, time.Hour)
+	for i := 0; i < occ; i++ {
+		n, err := aw.Write([]byte{byte(i % 251)})
+		vCheck(err == nil && n == 1, "a write is accepted while the queue has room")
+	}
+	if closeIt {
+		aw.Close()
+	} else {
+		vCheck(aw.Flush() == nil, "Flush returns no error")
+	}
+	vCheck(len(sink.log) == occ, "everything accepted before Flush/Close returns is in the file when it returns")
+	for i := 0; i < len(sink.log) && i < occ; i++ {
+		if sink.log[i] != byte(i%251) {
+			vCheck(false, "accepted data reach the file in the order written")
+		}
+	}
+	if !closeIt {
+		aw.Close()
+	}
+	vObserve("occ", int64(occ))
+	vWitness("c07drain-end")
 }
